@@ -200,3 +200,43 @@ Theorem C08_keepref_outputs_weak : forall W sem unb, wf W ->
     = snd (run (tr_wb (trim W sem I O s)) sem (tr_st (trim W sem I O s)) h).
 Proof. exact keep_outputs_weak. Qed.
 Print Assumptions C08_keepref_outputs_weak.
+
+(* ---- the clause "cells that feed the outputs but do not depend on an input
+   are frozen to the value they had at trim time", and the shape of cell_map
+   after the trim (Proofs/C08Frozen.v; a frozen cell exists in
+   Proofs/C08Example.v t_frozen). *)
+From PV Require Import Proofs.C08Frozen.
+
+(* a frozen cell is kept, is an input (value) cell of the trimmed workbook, and
+   holds the from-scratch value of the ORIGINAL workbook under the inputs as
+   they were at trim time *)
+Theorem C08_frozen_holds_value : forall W sem, wf W -> sem_nonblank W sem -> stored_ok W sem ->
+  forall I O s, Inv W sem s -> (forall o, In o O -> o < wb_n W) ->
+  forall f, tr_frz (trim W sem I O s) f = true ->
+    st_built (tr_st (trim W sem I O s)) f = true /\
+    wb_input (tr_wb (trim W sem I O s)) f = true /\
+    st_cache (tr_st (trim W sem I O s)) f = spec W sem (st_cache (build_all W sem O s)) f.
+Proof. exact frozen_holds_value. Qed.
+Print Assumptions C08_frozen_holds_value.
+
+(* every output is in cell_map after the trim *)
+Theorem C08_outputs_kept : forall W sem, wf W -> sem_nonblank W sem -> stored_ok W sem ->
+  forall I O s, Inv W sem s -> (forall o, In o O -> o < wb_n W) ->
+  forall o, In o O -> st_built (tr_st (trim W sem I O s)) o = true.
+Proof. exact trim_outputs_kept. Qed.
+Print Assumptions C08_outputs_kept.
+
+(* cell_map after the trim is exactly the needed cells among the cells built by
+   step 1: the trim adds no cell, and deletes every cell that is not needed *)
+Theorem C08_kept_is_needed : forall W sem, wf W -> sem_nonblank W sem -> stored_ok W sem ->
+  forall I O s, Inv W sem s -> (forall o, In o O -> o < wb_n W) ->
+  forall n, st_built (tr_st (trim W sem I O s)) n
+            = (st_built (build_all W sem O s) n && tr_need (trim W sem I O s) n)%bool.
+Proof. exact trim_kept_needed. Qed.
+Print Assumptions C08_kept_is_needed.
+
+Theorem C08_only_deletes : forall W sem, wf W -> sem_nonblank W sem -> stored_ok W sem ->
+  forall I O s, Inv W sem s -> (forall o, In o O -> o < wb_n W) ->
+  forall n, st_built (tr_st (trim W sem I O s)) n = true -> st_built (build_all W sem O s) n = true.
+Proof. exact trim_only_deletes. Qed.
+Print Assumptions C08_only_deletes.
